@@ -170,7 +170,12 @@ func c02Sequence(c *Ctx, kind string, auto bool, u c02Universe, length int) {
 			n := c.Rng.Intn(4)
 			var objs []ObjID
 			for j := 0; j < n; j++ {
-				objs = append(objs, ObjID{Key: pickRead()})
+				o := ObjID{Key: pickRead()}
+				if kind != "mem" && c.Rng.Intn(2) == 0 {
+					// "null" names the only version of a key of an unversioned bucket (what S3 clients send)
+					o.Version = "null"
+				}
+				objs = append(objs, o)
 			}
 			line, obs = r.DelMulti(pickB(), objs)
 			finger = "deleteMulti"
